@@ -77,9 +77,26 @@ const (
 
 // viaHandler runs the real handler on the claim event's log. It returns the appended claim (nil when the handler
 // returned an error) and the handler's error; appending anything together with an error is reported through extra.
-func viaHandler(flav int, tx common.Hash, trace []byte) (claim *bridgesync.Claim, err error, extra string) {
+// rpcRefusal is a JSON-RPC error answer of the node (go-ethereum's rpc.Error interface).
+type rpcRefusal struct {
+	code int
+	msg  string
+}
+
+func (e rpcRefusal) Error() string  { return e.msg }
+func (e rpcRefusal) ErrorCode() int { return e.code }
+
+// refusals: what a node (or the load balancer in front of several) may answer to one debug_traceTransaction request
+var refusals = []error{
+	nil,
+	rpcRefusal{-32601, "the method debug_traceTransaction does not exist/is not available"}, //nolint:mnd
+	rpcRefusal{-32000, "transaction not found"},                                                //nolint:mnd
+	fmt.Errorf("fake node: connection reset by peer"),
+}
+
+func viaHandler(flav int, tx common.Hash, trace []byte, refuse error) (claim *bridgesync.Claim, err error, extra string) {
 	p := getHandlerPath()
-	rpc := &fakeRPC{answer: trace, tx: tx}
+	rpc := &fakeRPC{answer: trace, tx: tx, refuse: refuse}
 	p.node.rpc = rpc
 	var (
 		ev   abi.Event
